@@ -422,6 +422,7 @@ func BodyFromSpec(t *rapid.T, s *SpecM, o BodyFromSpecOpts) *ast.Body {
 				n = rapid.IntRange(0, 3).Draw(t, "nblocks")
 			}
 			var prevLabels []ast.Label
+			seenTuples := map[string]bool{}
 			for i := 0; i < n; i++ {
 				bl := ast.Block{Type: x.Name}
 				nl := x.BlockLabelCount()
@@ -437,6 +438,23 @@ func BodyFromSpec(t *rapid.T, s *SpecM, o BodyFromSpecOpts) *ast.Body {
 					}
 					txt := cty.StringVal(rapid.SampledFrom(o.Labels).Draw(t, "label")).AsString()
 					bl.Labels = append(bl.Labels, ast.Label{Text: txt, Bare: isIdent(txt) && rapid.Bool().Draw(t, "bare")})
+				}
+				if o.Perturb == 0 && (x.Kind == SBlockMap || x.Kind == SBlockObject) && len(bl.Labels) > 0 {
+					// without deliberate violations the label tuples of keyed blocks are distinct
+					key := ""
+					for _, l := range bl.Labels {
+						key += l.Text + "\x00"
+					}
+					if seenTuples[key] {
+						last := &bl.Labels[len(bl.Labels)-1]
+						last.Text += fmt.Sprint(i)
+						last.Bare = last.Bare && isIdent(last.Text)
+						key = ""
+						for _, l := range bl.Labels {
+							key += l.Text + "\x00"
+						}
+					}
+					seenTuples[key] = true
 				}
 				prevLabels = bl.Labels
 				if x.Kind == SBlockAttrs {
